@@ -59,7 +59,12 @@ def run (op : String) : P String :=
   | "diffpatch" => do
     let o ← pOpts; let a ← pNode; let b ← pNode
     let d := diffM o a b
-    pure (encDiff d ++ " " ++ encPatchOutcome a d)
+    -- in the classes KF-C01-keytwin / KF-C01-identperm a hunk can land in another member than the one it
+    -- was made for; what happens next in Go depends on maps shared between the diff and the document
+    -- (Patch mutates members in place), which this functional model does not carry: only the diff is tied
+    if keyTwin o (subterms a ++ subterms b) || identPerm o (subterms a ++ subterms b) then
+      pure (encDiff d ++ " kfskip")
+    else pure (encDiff d ++ " " ++ encPatchOutcome a d)
   | "c01" => do
     let o ← pOpts; let a ← pNode; let b ← pNode
     let eq ← next
